@@ -22,7 +22,8 @@ def classOblivious (t : ClassTable) (c : String) : Bool :=
 /-- predictions for every class × route, for the cross-check against real executions -/
 def routes (t : ClassTable) : List (String × String × String × Outcome) :=
   (classes t).flatMap fun c =>
-    [(c, "truth", "", truthOf t c), (c, "iter", "", iterOf t c), (c, "hash", "", hashOf t c)] ++
+    [(c, "truth", "", truthOf t c), (c, "iter", "", iterOf t c), (c, "hash", "", hashOf t c),
+     (c, "reversed", "", reversedOf t c), (c, "indexwalk", "", indexWalkOf t c)] ++
     cmpSlots.flatMap fun s => others.flatMap fun o =>
       [(c, s, o, cmpOutcome t c s o), (c, s ++ "+truth", o, cmpThenTruth t c s o)]
 
